@@ -7,7 +7,7 @@ from trie.fog import HexaryTrieFog, TrieFrontierCache
 from trie.exceptions import (PerfectVisibility, FullDirectionalVisibility, MissingTraversalNode, TraversedPartialPath)
 
 ID = "C09"
-LEAN_IMPORTS = ["PyTrie.Props.C09", "PyTrie.Props.NonVacuity", "PyTrie.Props.NonVacuity2", "PyTrie.Props.NonVacuity6", "PyTrie.Props.NonVacuity7", "PyTrie.Props.NonVacuity8", "PyTrie.Props.C09Termination", "PyTrie.Props.NonVacuity10"]
+LEAN_IMPORTS = ["PyTrie.Props.C09", "PyTrie.Props.NonVacuity", "PyTrie.Props.NonVacuity2", "PyTrie.Props.NonVacuity6", "PyTrie.Props.NonVacuity7", "PyTrie.Props.NonVacuity8", "PyTrie.Props.C09Termination", "PyTrie.Props.NonVacuity10", "PyTrie.Props.C09Blocks"]
 THEOREMS = [
     "PyTrie.Props.C09.step_defined",
     "PyTrie.Props.C09.finds_stable",
@@ -69,6 +69,9 @@ THEOREMS = [
     "PyTrie.Props.C09.raw_walk_complete_at_bound",
     "PyTrie.Props.NonVacuity10.sched8_keys_short",
     "PyTrie.Props.NonVacuity10.walk_bound_witness",
+    "PyTrie.Props.C09.history_blocks_preserves",
+    "PyTrie.Props.C09.schedOk_of_history_with_blocks",
+    "PyTrie.Props.C09.walk_over_history_with_blocks",
 ]
 RULE = ("walks over tries built by generated histories: at every step an unexplored prefix is taken with nearest_unknown or "
         "nearest_right for a (changing) query key, traversed from the root or from a TrieFrontierCache entry (stale entries "
